@@ -724,6 +724,9 @@ pub enum ROp {
     /// fit_width / fit_height on the long-lived ImageBuilder (last value wins per dimension)
     FitW(u32),
     FitH(u32),
+    /// `to_file` of the long-lived SvgBuilder for QR #k, always to the SAME path of this history: afterwards the file
+    /// must hold exactly what `to_str` gives (whatever an earlier render left in that file)
+    SvgFile(usize),
 }
 
 #[derive(Clone, Debug)]
@@ -734,7 +737,7 @@ pub struct RHistory {
 
 pub fn rhist_json(h: &RHistory) -> Value {
     json!({"kind": "renderer_history", "qrs": h.qrs.iter().map(|b| b.to_json()).collect::<Vec<_>>(),
-           "ops": h.ops.iter().map(|o| match o { ROp::Set(s) => json!({"set": svg_op_json(s)}), ROp::Svg(i) => json!({"svg": i}), ROp::Png(i) => json!({"png": i}), ROp::FitW(w) => json!({"fit_width": w}), ROp::FitH(h) => json!({"fit_height": h}) }).collect::<Vec<_>>()})
+           "ops": h.ops.iter().map(|o| match o { ROp::Set(s) => json!({"set": svg_op_json(s)}), ROp::Svg(i) => json!({"svg": i}), ROp::Png(i) => json!({"png": i}), ROp::FitW(w) => json!({"fit_width": w}), ROp::FitH(h) => json!({"fit_height": h}), ROp::SvgFile(i) => json!({"svg_file": i}) }).collect::<Vec<_>>()})
 }
 
 fn rhist_from(v: &Value) -> Option<RHistory> {
@@ -742,6 +745,7 @@ fn rhist_from(v: &Value) -> Option<RHistory> {
     let ops = v.get("ops")?.as_array()?.iter().filter_map(|o| {
         if let Some(s) = o.get("set") { return Some(ROp::Set(svg_op_from(s)?)); }
         if let Some(i) = o.get("svg").and_then(|x| x.as_u64()) { return Some(ROp::Svg(i as usize)); }
+        if let Some(i) = o.get("svg_file").and_then(|x| x.as_u64()) { return Some(ROp::SvgFile(i as usize)); }
         if let Some(w) = o.get("fit_width").and_then(|x| x.as_u64()) { return Some(ROp::FitW(w as u32)); }
         if let Some(h) = o.get("fit_height").and_then(|x| x.as_u64()) { return Some(ROp::FitH(h as u32)); }
         o.get("png").and_then(|x| x.as_u64()).map(|i| ROp::Png(i as usize))
@@ -770,6 +774,25 @@ pub fn check_rhistory(h: &RHistory, obs: &mut Obs) -> Result<(), Fail> {
                     pc("ImageBuilder setter", || apply_svg_op(&mut ppng, o))?;
                     prog_png.push(o.clone());
                 }
+            }
+            ROp::SvgFile(k) => {
+                let Some(Some(q)) = built.get(*k) else { continue };
+                let path = std::env::temp_dir().join(format!("fqv-c14-{}-{:016x}.svg", std::process::id(), hash_bytes(rhist_json(h).to_string().as_bytes())));
+                let path_s = path.to_string_lossy().to_string();
+                let res = pc("SvgBuilder::to_file", || psvg.to_file(q, &path_s).map_err(|e| format!("{:?}", e)))?;
+                let want = pc("SvgBuilder::to_str", || psvg.to_str(q))?;
+                let got = std::fs::read(&path).unwrap_or_default();
+                if i + 1 == h.ops.len() || !h.ops[i + 1..].iter().any(|o| matches!(o, ROp::SvgFile(_))) {
+                    let _ = std::fs::remove_file(&path);
+                }
+                ensure!(res.is_ok(), "renderer_history_dependent:to_file_err", "op {}: to_file failed on a writable temporary path: {:?}", i, res);
+                ensure!(
+                    got == want.as_bytes(),
+                    "renderer_history_dependent:file",
+                    "op {}: after to_file the file has {} bytes, to_str of the same builder and QR #{} gives {} bytes (first difference at {:?}); the file held an earlier rendering of this history (history {})",
+                    i, got.len(), k, want.len(), got.iter().zip(want.as_bytes()).position(|(a, b)| a != b), rhist_json(h)
+                );
+                obs.label("render:svg_to_same_file");
             }
             ROp::FitW(w) => {
                 ppng.fit_width(*w);
@@ -850,6 +873,7 @@ pub fn rhistory_strategy() -> BoxedStrategy<RHistory> {
                 4 => p_op().prop_map(ROp::Set),
                 5 => (0..k).prop_map(ROp::Svg),
                 2 => (0..k).prop_map(ROp::Png),
+                2 => (0..k).prop_map(ROp::SvgFile),
                 1 => (20u32..400).prop_map(ROp::FitW),
                 1 => (20u32..400).prop_map(ROp::FitH),
             ];
